@@ -2,6 +2,9 @@
 
 proof   : Props/C37.v — connect_ok over the complete configuration set (client and server key sizes chosen independently) computed from Gen.PolicyParams /
           Gen.InteropTables (regenerated from /repo by calling uapolicy on every run), vm_compute + forallb_forall.
+seq     : additionally ONE long-lived server enabling 7 pairs serves all its (policy, mode, token) cells in seeded random
+          orders (secured -> None/discovery transitions, secured clients kept connected meanwhile); the model treats
+          connections as independent, so every cell is predicted to succeed and compared the same way.
 tie     : the same matrix is run for real (stock server + stock client: GetEndpoints, Connect = OPN + CreateSession +
           ActivateSession, Read, Write, Read back); every outcome and every advertised endpoint list is compared with
           connect_ok_on / endpoints_on inside Coq.  quick: RSA-2048 for every policy plus RSA-1024 (accepted by the two
@@ -58,6 +61,8 @@ def cfg_str(o):
     s = "%s:%d:%s:%d" % (o["policy"], o["mode"], kb, o["token"])
     if o.get("extra"):
         s += ":" + o["extra"]
+    if o.get("pairs"):
+        s += "@seq%d.%d" % (o.get("seq_seed", 0), o.get("seq", 0))
     return s
 
 
@@ -80,11 +85,13 @@ def spec_supported(o):
 def coq_case(o):
     tok = "TUser" if o["token"] == 1 else "TAnon"
     pairs = ['{| sc_pol := "None"; sc_mode := 1 |}']
-    if o.get("extra"):
+    if o.get("pairs"):  # sequence scenario: the long-lived server's full list, in its order
+        pairs = ['{| sc_pol := "%s"; sc_mode := %s |}' % tuple(e.split("/")) for e in o["pairs"]]
+    elif o.get("extra"):
         for e in o["extra"].split("+"):
             p, m = e.split("/")
             pairs.append('{| sc_pol := "%s"; sc_mode := %s |}' % (p, m))
-    if o["policy"] != "None":
+    if o["policy"] != "None" and not o.get("pairs"):
         pairs.append('{| sc_pol := "%s"; sc_mode := %d |}' % (o["policy"], o["mode"]))
     eps = []
     for e in o.get("endpoints") or []:
@@ -150,6 +157,19 @@ def run(ctx):
         rc2, out2 = vf.sh([h, "-keys", KEYS, "c37"] + MIXED + cells, timeout=900, env=vf.GOENV)
         obs += [json.loads(l) for l in out2.splitlines() if l.startswith('{"kind":"c37"')]
         rc = rc or rc2
+    # one long-lived server enabling several configurations, cells in seeded random orders, overlapping clients
+    if not (ctx.replay and "config" in json.load(open(ctx.replay))):
+        seq_seeds = [json.load(open(ctx.replay)).get("seq_seed", ctx.seed)] if ctx.replay else \
+            ([ctx.seed + i for i in range(6)] if ctx.thorough() else [ctx.seed, ctx.seed + 1])
+        for sd in seq_seeds:
+            rc3, out3 = vf.sh([h, "-keys", KEYS, "-seed", str(sd), "-n", "8" if ctx.thorough() else "4", "c37seq"], timeout=600, env=vf.GOENV)
+            so = [json.loads(l) for l in out3.splitlines() if l.startswith('{"kind":"c37"')]
+            for o in so:
+                o["seq_seed"] = sd
+            obs += so
+            if rc3 != 0 or not so:
+                rc = rc or rc3 or 1
+                out += out3
     if rc != 0 or not obs:
         # the harness itself died (a panic in a library goroutine): that is a failure of the property on some configuration
         ctx.finding("harness-crash", "interop harness crashed (panic in the library?)", {"output": out[-3000:], "cmd": " ".join(cmd)})
@@ -161,15 +181,18 @@ def run(ctx):
     for o in obs:
         if o.get("extra") and not none_cell(o):
             continue  # outside the property's quantifier; compared with the model below
-        sup = spec_supported(o)
+        sup = spec_supported(o) or bool(o.get("pairs"))  # the sequence server holds a 2048-bit key: inside every policy's limits
         if not o["endpoints"] or not o["ep_found"]:
-            fails.append(("endpoint-not-advertised", "server does not advertise the enabled policy/mode", o))
+            if not o["endpoints"]:
+                fails.append(("discovery", "GetEndpoints over the unsecured discovery channel fails: %s" % o.get("err", ""), o))
+            else:
+                fails.append(("endpoint-not-advertised", "server does not advertise the enabled policy/mode", o))
             continue
         if sup and o["tok_advertised"] and not o["ok"]:
             fails.append(("no-connect/" + o["stage"], "supported configuration fails at stage %s: %s" % (o["stage"], o.get("err", "")), o))
         if not sup and o["ok"]:
             fails.append(("outside-limits-connects", "connects with an RSA key size outside the profile's limits", o))
-        if sup and o["mode"] != 1:
+        if sup and o["mode"] != 1 and not o.get("pairs"):
             want = SPEC_NONCE.get(o["policy"])
             if not o["asym_ok"]:
                 fails.append(("asym-rejects", "asymmetric constructor rejects a key size inside the profile's limits", o))
@@ -219,7 +242,13 @@ def run(ctx):
         if key in seen:
             continue
         seen.add(key)
-        if ctx.finding(key, why, {"config": cfg_str(o), "observation": o,
-                                  "how": "sysharness c37 <config>: stock server (None/None + the pair, key of that size) vs stock client built with SecurityFromEndpoint"}):
+        extra = {}
+        if o.get("pairs"):
+            extra = {"seq_seed": o["seq_seed"], "server_pairs": o["pairs"],
+                     "sequence_before": [cfg_str(x).split("@")[0] + (" ok" if x["ok"] else " FAILED") for x in obs
+                                         if x.get("seq_seed") == o["seq_seed"] and x.get("pairs") and x["seq"] < o["seq"]],
+                     "how_seq": "sysharness -seed <seq_seed> c37seq: one long-lived server, cells in this order, some secured clients kept connected"}
+        if ctx.finding(key, why, dict({"config": cfg_str(o), "observation": o,
+                                  "how": "sysharness c37 <config>: stock server (None/None + the pair, key of that size) vs stock client built with SecurityFromEndpoint"}, **extra)):
             new += 1
     ctx.conclude(proof_ok, corr_ok, new, detail)
